@@ -367,11 +367,24 @@ func fix(args []string, params *fixCommandParams) error {
 			return fmt.Errorf("failed to get changed files: %w", err)
 		}
 
-		changedFiles := rutil.NewSet(cf...)
+		changedFiles := rutil.NewSet[string]()
+
+		// the changed files are relative to the root of the git repo, while
+		// the file provider deals with absolute paths only
+		for _, file := range cf {
+			abs, err := filepath.Abs(filepath.Join(gitRepo, file))
+			if err != nil {
+				return fmt.Errorf("failed to get absolute path for %s: %w", file, err)
+			}
+
+			changedFiles.Add(abs)
+		}
 
 		var conflictingFiles []string
 
-		for _, file := range fileProvider.ModifiedFiles() {
+		// files that are moved are deleted from their old location, which
+		// is just as much of a change as a modification
+		for _, file := range append(fileProvider.ModifiedFiles(), fileProvider.DeletedFiles()...) {
 			if changedFiles.Contains(file) {
 				conflictingFiles = append(conflictingFiles, file)
 			}
